@@ -88,6 +88,7 @@ var regScens = []regScen{
 	{Name: "one-plugin-creator-and-events", Plugins: []string{"good"}, Threads: [][]rop{{{"create", "c1"}, {"create", "c2"}}, {{"event", "e1"}}}, Bound: [2]int{3, 5}},
 	{Name: "two-plugins-two-creators", Plugins: []string{"good", "good"}, Threads: [][]rop{{{"create", "c1"}}, {{"create", "c2"}}}, Bound: [2]int{2, 4}},
 	{Name: "failed-sync-then-good", Plugins: []string{"syncfail", "good"}, Threads: [][]rop{{{"create", "c1"}}}, Bound: [2]int{3, 5}},
+	{Name: "repeated-unblock-two-creators", Plugins: []string{"good"}, Threads: [][]rop{{{"create-unblock-twice", "c1"}}, {{"create", "c2"}}}, Bound: [2]int{3, 4}},
 	{Name: "bad-handshake-then-good", Plugins: []string{"badindex", "good"}, Threads: [][]rop{{{"create", "c1"}}}, Bound: [2]int{3, 5}},
 }
 
@@ -180,8 +181,16 @@ func (w *regWorld) body(s *vsched.Sched) {
 				defer func() { w.done++ }()
 				for _, o := range ops {
 					switch o.Kind {
-					case "create":
+					case "create", "create-unblock-twice":
 						b := r.BlockPluginSync()
+						if o.Kind == "create-unblock-twice" {
+							// Unblock is documented as safe to call more than once: an explicit release
+							// plus a deferred safety net
+							defer func() {
+								vsched.Yield("before-repeated-unblock")
+								b.Unblock()
+							}()
+						}
 						atomic.AddInt32(&w.blocks, 1)
 						c := &api.Container{Id: o.ID, PodSandboxId: "pod0", Name: o.ID}
 						w.storeMu.Lock()
@@ -239,7 +248,7 @@ func (w *regWorld) verdict(ex *vsched.Exec) (viol []string, outcome string) {
 	var created []string
 	for _, ops := range sc.Threads {
 		for _, o := range ops {
-			if o.Kind == "create" {
+			if strings.HasPrefix(o.Kind, "create") {
 				created = append(created, o.ID)
 			}
 		}
